@@ -187,6 +187,37 @@ func buildMisc(b *builder) {
 		return new(out).b(s).err(err).Bytes()
 	}, sh("bsPriv", bsPriv), sh("bsMsg", bsMsg))
 
+	// decoders of the bandersnatch companion over a shared pool of input buffers
+	{
+		lr := layout{elemLen: bsfr.Bytes, mod: bsfr.Modulus()}
+		bb := base.Bytes()
+		var inf bandersnatch.PointAffine
+		inf.Y.SetOne()
+		ib := inf.Bytes()
+		b.addDecoder("bandersnatch.PointAffine.SetBytes/Unmarshal", poolOf(mutations(bb[:], lr), dirtyInfinity(ib[:])), func(buf []byte) []byte {
+			var p, q bandersnatch.PointAffine
+			n, err := p.SetBytes(buf)
+			err2 := q.Unmarshal(buf)
+			return new(out).int(n).err(err).err(err2).b(p.Marshal()).bool(p.Equal(&q)).Bytes()
+		})
+		b.addDecoder("bandersnatch/eddsa.PublicKey/PrivateKey/Signature.SetBytes", poolOf(mutations(bsPriv.PublicKey.Bytes(), lr), mutations(bsPriv.Bytes(), lr), mutations(bsSig, lr)), func(buf []byte) []byte {
+			var pk bseddsa.PublicKey
+			var sk bseddsa.PrivateKey
+			var sg bseddsa.Signature
+			n1, err1 := pk.SetBytes(buf)
+			n2, err2 := sk.SetBytes(buf)
+			n3, err3 := sg.SetBytes(buf)
+			o := new(out).int(n1).int(n2).int(n3).err(err1).err(err2).err(err3)
+			if err1 == nil {
+				o.b(pk.Bytes())
+			}
+			if err3 == nil {
+				o.b(sg.Bytes())
+			}
+			return o.Bytes()
+		})
+	}
+
 	// ---- secp256k1 ---------------------------------------------------------------------------
 	secPriv, err := secdsa.GenerateKey(newDet("misc/secp256k1/ecdsa"))
 	if err != nil {
